@@ -524,3 +524,69 @@ class ImplFeat(ImplViews):
         self._sync_heap()
         ids = [str(self._fid(s)) for s in self.dispatcher.subscribers]
         return f"subs {' '.join(ids)} || " + " || ".join(self.fmt_fobs(i) for i in range(len(self.fheap)))
+
+
+# ----------------------------------------------------------------------------------- graphs (C16, C17)
+from job_shop_lib import graphs as _graphs  # noqa: E402
+from job_shop_lib.graphs.graph_updaters import ResidualGraphUpdater  # noqa: E402
+
+BUILDERS = {
+    "disjunctive": _graphs.build_disjunctive_graph,
+    "agent_task": _graphs.build_agent_task_graph,
+    "agent_task_jobs": _graphs.build_agent_task_graph_with_jobs,
+    "complete_agent_task": _graphs.build_complete_agent_task_graph,
+}
+FKINDS["residual"] = ResidualGraphUpdater
+
+
+def fmt_node(node) -> str:
+    t = node.node_type
+    NT = _graphs.NodeType
+    if t == NT.OPERATION:
+        return f"o{node.operation.operation_id}"
+    if t == NT.MACHINE:
+        return f"m{node.machine_id}"
+    if t == NT.JOB:
+        return f"j{node.job_id}"
+    return {NT.GLOBAL: "g", NT.SOURCE: "S", NT.SINK: "T"}[t]
+
+
+def fmt_graph(g) -> str:
+    ET = _graphs.EdgeType
+    nodes = " ".join(fmt_node(n) for n in g.nodes)
+    removed = "".join("1" if r else "0" for r in g.removed_nodes)
+    def et(d):
+        t = d.get("type")
+        return "c" if t == ET.CONJUNCTIVE else "d" if t == ET.DISJUNCTIVE else "u"
+    edges = " ".join(f"{u}>{v}:{et(d)}" for u, v, d in g.graph.edges(data=True))
+    return f"nodes {nodes} | removed {removed} | edges {edges}"
+
+
+class ImplGraph(ImplFeat):
+    def cmd_graph(self, ts):
+        g = BUILDERS[ts[0]](self.instance)
+        self.last_graph = g
+        return fmt_graph(g)
+
+    def cmd_solved(self, ts):
+        g = _graphs.build_solved_disjunctive_graph(self.dispatcher.schedule)
+        self.last_graph = g
+        return fmt_graph(g)
+
+    def cmd_fres(self, ts):
+        g = BUILDERS[ts[0]](self.instance)
+        try:
+            obs = ResidualGraphUpdater(self.dispatcher, g, remove_completed_machine_nodes=ts[1] == "1",
+                                       remove_completed_job_nodes=ts[2] == "1")
+        except Exception:  # pylint: disable=broad-except
+            return "raise"
+        # helpers (IsCompleted, RemainingOperations, Unscheduled) were subscribed before the updater itself
+        self._sync_heap()
+        return str(self._fid(obs))
+
+    def fmt_fobs(self, i):
+        o = self.fheap[i]
+        if isinstance(o, ResidualGraphUpdater):
+            parts = str(self._fid(o._is_completed_observer)) if o._is_completed_observer is not None else ""  # pylint: disable=protected-access
+            return f"{i}:residual({parts}) {fmt_graph(o.job_shop_graph)}"
+        return super().fmt_fobs(i)
